@@ -377,6 +377,12 @@ def flush_rule(rep, prog, cfg):
             rep.fail("C14.flush", "%s/%s" % (cfg, short), fn, "function not found")
             continue
         b = bs[0]
+        if not any(B + "field" in callee_names(t) for _, t in b.calls()):
+            # the driving loop may be shared by both entry points (`collect_songs(frame, |entry| entry.song)`): the helper and the
+            # conversion closure it is handed are spliced in (A12); the builder's own methods stay calls
+            from ..inline import inlined, module_private_helpers
+            base_want = module_private_helpers(b)
+            b = inlined(prog, b, lambda cb: base_want(cb) and not norm(cb.name).startswith(B))
         fl = Flow(b)
         pushes = [(bb, t) for bb, t in b.calls() if "alloc::vec::Vec::push" in callee_names(t)]
         from_field = from_finish = False
